@@ -148,6 +148,20 @@ CHECKS["C01"] = dict(
     technique="TLA+ exact point-set oracle evaluated by TLC on recorded results of TLC-enumerated and random operand pairs (trace "
               "validation); small TLC model of the box-intersection dispatch")
 
+CHECKS["C03"] = dict(
+    level="exploration",
+    text="Measures.tla defines twice-the-area and the centroid as exact integers / rationals of the *shape* (shell minus holes, "
+         "sign-corrected ring moments) and TLC asserts validity of every catalogue shape; TLC generates the spelling orbit (per-ring "
+         "reversal x rotation x closed/unclosed) and the real Area / Centroid (Polygon, MultiPolygon, package op) of every spelling "
+         "must equal the shape's invariants (centroid to 2/1000, area exactly); Length must equal the integer sum of Pythagorean "
+         "segment lengths, Distance^2 the minimum rational point-segment distance; Buffer is checked algebraically on quantised "
+         "observations (vertex count, first vertex, on-circle, equal chords, left turns, perimeter < 2 pi r).",
+    design_ref="DESIGN.md section 5, C03",
+    note="Trusted: TLC, float exactness on small lattices, rounding of recorded floats to 1/1000 (1e-6 for Buffer). Non-lattice "
+         "floats and the transcendental content of Buffer are not covered; Polygon.Centroid/op.* only for orientation-consistent, "
+         "closed spellings (their documented domain).",
+    technique="TLA+ exact rational measures evaluated by TLC on recorded answers for TLC-generated spelling orbits (trace validation)")
+
 NOT_YET = "check not built yet in this round of work; will be claimed when its specification, replay and trace validation exist"
 NA = {
     "C09": "oracle is proj4js 2.3.12 and closed-form geodesy (real-valued transcendental functions, a JavaScript program that "
